@@ -463,6 +463,12 @@ pub fn infer(dag: &Dag, program: bool, pin: Option<(&T, &T)>) -> Result<Typing, 
 /// As `infer`, but the occurs check and the extraction only look at the arrows of `visible` nodes
 /// (the nodes a finalisation walk actually visits; every node's constraints still take part).
 pub fn infer_masked(dag: &Dag, program: bool, pin: Option<(&T, &T)>, visible: Option<&[bool]>) -> Result<Vec<Option<(T, T)>>, Unsat> {
+    infer_masked2(dag, program, pin, visible, visible)
+}
+
+/// `occurs_visible`: the nodes whose arrows the occurs check starts from (everything a finalisation walk over the
+/// construction-time DAG visits, attached disconnect branches included); `visible`: the nodes whose arrows are extracted.
+pub fn infer_masked2(dag: &Dag, program: bool, pin: Option<(&T, &T)>, occurs_visible: Option<&[bool]>, visible: Option<&[bool]>) -> Result<Vec<Option<(T, T)>>, Unsat> {
     let mut inf = Infer::new();
     for i in 0..dag.nodes.len() {
         inf.constrain(dag, i).map_err(|_| Unsat::Clash { at: i })?;
@@ -480,7 +486,8 @@ pub fn infer_masked(dag: &Dag, program: bool, pin: Option<(&T, &T)>, visible: Op
         inf.unify(rt, b).map_err(|_| Unsat::Clash { at: dag.root() })?;
     }
     let vis = |i: usize| visible.map(|v| v[i]).unwrap_or(true);
-    let roots: Vec<u32> = inf.arrows.iter().enumerate().filter(|(i, _)| vis(*i)).flat_map(|(_, (s, t))| [*s, *t]).collect();
+    let ovis = |i: usize| occurs_visible.map(|v| v[i]).unwrap_or(true);
+    let roots: Vec<u32> = inf.arrows.iter().enumerate().filter(|(i, _)| ovis(*i)).flat_map(|(_, (s, t))| [*s, *t]).collect();
     if inf.cyclic(&roots) {
         return Err(Unsat::Occurs);
     }
